@@ -34,6 +34,42 @@ def short_hash(s: str) -> str:
     return hashlib.blake2b(s.encode("utf-8", "surrogatepass"), digest_size=8).hexdigest()
 
 
+class _Rec:
+    """Per-thread recorder with the Ctx interface the check functions use."""
+
+    def __init__(self, parent, tid):
+        self.tid = tid
+        for a in ("spec", "prop", "tier", "seed", "shard", "nshards", "variant", "part", "params"):
+            setattr(self, a, getattr(parent, a))
+        self.rng = random.Random(f"{parent.prop}/{parent.part}/{parent.seed}/{parent.shard}/{parent.variant}/t{tid}")
+        self.evaluations = 0
+        self.sigs = set()
+        self.counters = collections.Counter()
+        self.samples = []
+        self.fails = []
+        self.notes = {}
+
+    def mine(self, i):
+        return True
+
+    def ev(self, sig=None, n=1):
+        self.evaluations += n
+        if sig is not None:
+            self.sigs.add(sig if isinstance(sig, str) else repr(sig))
+
+    def count(self, name, n=1):
+        self.counters[name] += n
+
+    def sample(self, case):
+        if len(self.samples) < 2:
+            self.samples.append(case)
+
+    def fail(self, mech, case, detail, **extra):
+        if len(self.fails) < 50:
+            self.fails.append((mech, case, detail, extra))
+        return None
+
+
 class Ctx:
     def __init__(self, spec: dict):
         self.spec = spec
@@ -127,6 +163,46 @@ class Ctx:
                 }
             )
         return None
+
+    # ---------------------------------------------------------------
+    def threaded(self, k, fn, switch=1e-6):
+        """Run fn(rec, tid) in k threads released by a barrier, under a tiny switch interval.  Each thread records into
+        its OWN recorder (the monitor's state is never shared between threads); recorders are merged, and failures
+        classified, in the calling thread after all have joined.  An exception inside a thread is a harness error."""
+        import sys
+        import threading
+
+        recs = [_Rec(self, t) for t in range(k)]
+        errs = []
+        bar = threading.Barrier(k)
+
+        def body(t):
+            try:
+                bar.wait()
+                fn(recs[t], t)
+            except BaseException:  # noqa: BLE001
+                errs.append(traceback.format_exc())
+
+        old = sys.getswitchinterval()
+        sys.setswitchinterval(switch)
+        try:
+            ths = [threading.Thread(target=body, args=(t,)) for t in range(k)]
+            for th in ths:
+                th.start()
+            for th in ths:
+                th.join()
+        finally:
+            sys.setswitchinterval(old)
+        for rec in recs:
+            self.evaluations += rec.evaluations
+            self.sigs |= rec.sigs
+            self.counters.update(rec.counters)
+            for case in rec.samples[:2]:
+                self.sample(case)
+            for mech, case, detail, extra in rec.fails:
+                self.fail(mech, dict(case, thread=rec.tid, threads=k) if isinstance(case, dict) else case, detail, **extra)
+        if errs:
+            raise RuntimeError("thread body raised:\n" + errs[0])
 
     # ---------------------------------------------------------------
     def result(self) -> dict:
